@@ -117,6 +117,8 @@ pub struct World {
     pub panic_node: AtomicU64,
     /// executors spin (yielding) while this is set and the node matches `stall_node`
     pub stall_node: AtomicU64,
+    /// executors abandon every n-th sub-query after a few polls and ask again (0: never)
+    pub abandon_every: AtomicU64, pub read_count: AtomicU64, pub abandoned: AtomicU64,
     pub stall: AtomicBool,
     pub exec_count: AtomicU64,
     /// node whose executor first spawns a helper task that keeps a clone of its tracked engine
@@ -136,7 +138,7 @@ impl World {
     pub fn new(prog: Program, n_ext: usize) -> Arc<Self> {
         Arc::new(World {
             prog, ext: (0..n_ext).map(|_| AtomicI64::new(0)).collect(), log: Mutex::new(Vec::new()),
-            panic_node: AtomicU64::new(u64::MAX), stall_node: AtomicU64::new(u64::MAX), stall: AtomicBool::new(false),
+            panic_node: AtomicU64::new(u64::MAX), stall_node: AtomicU64::new(u64::MAX), abandon_every: AtomicU64::new(0), read_count: AtomicU64::new(0), abandoned: AtomicU64::new(0), stall: AtomicBool::new(false),
             exec_count: AtomicU64::new(0), helper_node: AtomicU64::new(u64::MAX), helper_hold: AtomicBool::new(false),
             executing: Mutex::new(Default::default()), concurrent_same_key: AtomicU64::new(0), exec_yields: AtomicU64::new(0),
         })
@@ -194,6 +196,16 @@ fn eval<'a, C: Config>(w: &'a World, me: Node, e: &'a Expr, engine: &'a TrackedE
             }
             Expr::Const(z) => *z,
             Expr::Read(n) => {
+                // an executor that gives up on a sub-query (as with a timeout or `select!`) and asks again:
+                // every `abandon_every`-th read is first started, polled a few times and dropped while pending
+                let every = w.abandon_every.load(Ordering::SeqCst);
+                if every > 0 && w.read_count.fetch_add(1, Ordering::SeqCst) % every == every - 1 {
+                    let fut = query_node(engine, *n);
+                    tokio::pin!(fut);
+                    let polls = 1 + (w.read_count.load(Ordering::SeqCst) % 3);
+                    for _ in 0..polls { if let std::task::Poll::Ready(_) = futures::poll!(fut.as_mut()) { break; } }
+                    w.abandoned.fetch_add(1, Ordering::SeqCst);
+                }
                 let v = query_node(engine, *n).await;
                 w.log.lock().unwrap().push(Event::Read { by: me, dep: *n, value: v });
                 v
